@@ -742,12 +742,12 @@ def marker_ok_py(text: str) -> bool:
     return True
 
 
-def outside_defect_classes(text: str, d: dict) -> bool:
+def outside_defect_classes(text: str, d: dict, spelling_is_listed: bool = True) -> bool:
     """spelling_ok, is_block and marker_ok of theorem C20_init_config_partial: on such a file even the faithful model meets the
     specification, so a failure there cannot be one of the listed findings"""
     ls = linter_sections()
     nls = {nk(n) for n in ls}
-    spelling = all(nk(k) not in nls or k in ls for k in d)
+    spelling = (not spelling_is_listed) or all(nk(k) not in nls or k in ls for k in d)
     return spelling and not is_flow(text) and marker_ok_py(text)
 
 
@@ -1134,7 +1134,7 @@ def decide_init(chk, case, res, ver, cands_all):
     if ver is None:
         # no verdict from the Coq side (the model did not build): by C20_init_config_partial a specification failure on a
         # file outside the three defect classes cannot be a listed finding
-        if dE is not None and not all(pb) and outside_defect_classes(E, dE):
+        if dE is not None and not all(pb) and outside_defect_classes(E, dE, "q_missing_by_raw_key" in chk.known["known"]):
             chk.violation({"reason": "init-config on an existing valid configuration violates: "
                                      + ", ".join(n for n, b in zip(BIT_NAMES, pb) if not b)
                                      + " (model unavailable; the file avoids every listed defect class)",
@@ -1220,8 +1220,8 @@ def decide_hist(chk, case, res, ver, cands_all):
         rest = [f for f in fails if not any(f.startswith(f"step {n}:") and "not valid as documented" in f and "timeout nan" in f for n in nan_sets)]
         if fails and not rest:
             chk.known_finding("timeout_nan_accepted", {"mode": case["mode"], "file": case["file"], "cmds": case["cmds"], "failures": fails[:3]})
-        elif fails and all("-" not in c[1] for c in case["cmds"] if len(c) > 1):
-            chk.violation({"reason": "config set/get history violates the property (no model verdict; no hyphenated key involved): " + "; ".join(rest[:3]), **info})
+        elif fails and ("q_cli_raw_key" not in chk.known["known"] or all("-" not in c[1] for c in case["cmds"] if len(c) > 1)):
+            chk.violation({"reason": "config set/get history violates the property (no model verdict; not in a listed defect class): " + "; ".join(rest[:3]), **info})
         return cands_all
     chk.traces_validated += len(case["cmds"])
     spec_bits, ideal_ok, cand = [bool(b) for b in ver[0]], bool(ver[1][0]), [bool(b) for b in ver[2]]
